@@ -19,7 +19,7 @@ def simple(which, plen, mlen, rt):
 
 def request(kind, fl, ml, nopt, ocode, vlo, vhi, rt, timeout=900, mem_kb=None):
     name = "c11_%s_f%d_m%d_o%d_t%d_v%d_%d_%s" % ({1: "rrq", 2: "wrq", 6: "oack"}[kind], fl, ml, nopt, ocode, vlo, vhi, "rt" if rt else "lay")
-    return Inst(name, "packet", "c11_request!(%s, %d, %d, %d, %d, %d, %d, %d, %s, 34);" % (name, kind, fl, ml, nopt, ocode, vlo, vhi, "true" if rt else "false"),
+    return Inst(name, "packet", "c11_request!(%s, %d, %d, %d, %d, %d, %dusize, %dusize, %s, 34);" % (name, kind, fl, ml, nopt, ocode, vlo, vhi, "true" if rt else "false"),
                 "c11_request",
                 {"kind": kind, "filename_len": fl, "mode_len": ml, "options": nopt, "option_type": "symbolic" if ocode > 3 else "concrete (%d, then cyclic)" % ocode,
                  "value_range": [vlo, vhi], "round_trip": rt}, timeout=timeout, mem_kb=mem_kb or 10 * 1024 * 1024)
